@@ -214,7 +214,7 @@ class C05(common.Prop):
 
     # ---- generation
     def gen_cases(self, rng, tier):
-        n = 260 if tier == "quick" else 4000
+        n = 1500 if tier == "quick" else 14000
         for i in range(n):
             r = rng.random()
             if r < 0.45:
@@ -342,29 +342,53 @@ class C05(common.Prop):
             shape = (len(case["frames"]),)
         else:
             shape = tuple(min(x, 3) for x in case["shape"][:2]) if len(case.get("shape", [])) >= 2 else ()
+        try:
+            self.run_impl(case)
+            js = "js-ok" if (case.get("_js") and "ok" in case["_js"]) else ("no-file" if case.get("_file") is None else "js-throws")
+        except Exception:
+            js = "js-?"
+        py = self.py_dump(case)
+        py = "no-file" if py is None else ("py-raises" if "err" in py else "py-ok")
         return (kind, "/".join(fc), "dupname" if len(set(names)) != len(names) else "names-ok", "bom" if bom else "-",
-                len({len(c["format"]) for c in comps}) > 1, shape, case.get("edge", "none") if kind == "v02" else "-")
+                len({len(c["format"]) for c in comps}) > 1, shape, case.get("edge", "none") if kind == "v02" else "-", js, py)
 
     def nontrivial(self, case):
+        """node parsed the file and it has at least one (frame, person, point) cell"""
+        try:
+            self.run_impl(case)
+        except Exception:
+            return False
         r = case.get("_js")
-        return bool(r and "ok" in r and case.get("_cells", 0) > 0)
+        if not (r and "ok" in r):
+            return False
+        kind = case["kind"].split("+")[0]
+        T = sum(len(c["points"]) for c in case["comps"])
+        if kind == "v00":
+            return T > 0 and any(len(people) > 0 for people in case["frames"])
+        sh = case.get("shape") or []
+        return len(sh) == 4 and sh[0] > 0 and sh[1] > 0 and T > 0
 
     # ---- implementation: node on the real parser.ts, and the Python reader
     def run_impl(self, case):
+        if "_impl_out" in case:
+            return case["_impl_out"]
         f = self.file_of(case)
         if f is None:
             case["_js"] = None
-            return {"file": None}
+            case["_impl_out"] = {"file": None}
+            return case["_impl_out"]
         if self.node is None:
             raise RuntimeError("node could not be started: %s" % getattr(self, "node_error", "?"))
         r = self.node.ask(f, case["dump"])
         case["_js"] = r
         if "ok" not in r:
-            return {"file": len(f), "js": ["err"]}
+            case["_impl_out"] = {"file": len(f), "js": ["err"]}
+            return case["_impl_out"]
         o = r["ok"]
         out = {"file": len(f),
                "js": ["ok", canon_js(o["header"]), canon_js(o["info"]), canon_js(o["nframes"]), tuple((i, canon_js(v)) for i, v in o["frames"])]}
         case["_jsc"] = out["js"]
+        case["_impl_out"] = out
         return out
 
     def run_model(self, case, runner):
@@ -408,18 +432,24 @@ class C05(common.Prop):
         finally:
             PoseHeaderCache.clear_cache()
 
+    def py_dump(self, case):
+        if "_pyd" not in case:
+            f = self.file_of(case)
+            case["_pyd"] = None if f is None else self.py_read(f)
+        return case["_pyd"]
+
     def oracle(self, case):
         f = self.file_of(case)
         if f is None:
             return None                       # the Python writer refused the pose: no file
-        py = self.py_read(f)
-        case["_py"] = "err" if "err" in py else "ok"
+        py = self.py_dump(case)
         if "err" in py:
             return None                       # no Python reading to agree with (outside the property's files)
         kind = case["kind"].split("+")[0]
         vclass = {0: "v00", 0x80000000: "v00", V01_WORD: "v01", V02_WORD: "v02"}.get(py["version"])
-        if vclass is None:
-            return None                       # the property speaks about v0.0 / v0.1 / v0.2 files
+        if vclass is None or vclass != kind:
+            return None                       # the property speaks about v0.0 / v0.1 / v0.2 files (a body laid out for another
+                                              # version than the header says is not a file of the reference encoders)
         js = case.get("_jsc")
         if js is None:
             return {"what": "Pose.read accepts the file, parsePose throws: %s" % (case.get("_js") or {}).get("err"), "fields": ["raises"]}
